@@ -120,9 +120,12 @@ def compare(prog, impl_out, model_out):
     return None
 
 
-def shrink(prog, still_fails, max_steps=400):
+def shrink(prog, still_fails, max_steps=400, max_seconds=90):
     """Delta-debugging over program lines; keeps handle/circuit numbering consistent by only dropping
-    commands that do not create handles or circuits, or whole suffixes."""
+    commands that do not create handles or circuits, or whole suffixes.  Bounded in steps and in time (a program with a
+    thousand operations costs seconds per evaluation: the un-minimised program is still a valid replay)."""
+    import time as _time
+    t_end = _time.time() + max_seconds
     cur = list(prog)
     steps = 0
     # drop suffix after the failing point is handled by the caller; here: try removing single commands
@@ -134,7 +137,8 @@ def shrink(prog, still_fails, max_steps=400):
             if cand is None:
                 continue
             steps += 1
-            if steps > max_steps:
+            if steps > max_steps or _time.time() > t_end:
+                steps = max_steps + 1
                 break
             try:
                 if still_fails(cand):
